@@ -94,6 +94,9 @@ type libOp struct {
 	Faults    []simos.Fault    `json:"faults,omitempty"` // an I/O error, optionally followed by a kill
 	PowerLoss *simos.PowerLoss `json:"powerloss,omitempty"`
 	Disk      *diskFault       `json:"disk,omitempty"`
+	// Careless: the caller ignores every error the library returns, never
+	// unlinks anything and keeps using whatever File it was handed.
+	Careless bool `json:"careless,omitempty"`
 }
 
 type libScenario struct {
@@ -222,6 +225,21 @@ func (r *libRun) putFaults(op libOp, faults []simos.Fault, pl *simos.PowerLoss) 
 	killed, pnc, p = r.inProc(spec, func() {
 		f, err := cache.CreateLevel(libCacheDir, r.h, append([]byte(nil), k[0]...), append([]byte(nil), k[1]...), op.Level)
 		if f == nil {
+			return
+		}
+		if op.Careless {
+			rest := body
+			for i := 0; len(rest) > 0; i++ {
+				n := len(rest)
+				if len(op.Writes) > 0 {
+					if c := op.Writes[i%len(op.Writes)]; c >= 1 && c < n {
+						n = c
+					}
+				}
+				f.Write(rest[:n])
+				rest = rest[n:]
+			}
+			f.Close()
 			return
 		}
 		ok := err == nil
